@@ -471,6 +471,7 @@ class Executor(Engine):
                     return out + [(st3, None)]
             except OutOfSubset:
                 pass
+        falls = []
         for cond, block in ((c, s.body), (z3.Not(c), s.orelse)):
             cs = z3.simplify(cond)
             if z3.is_false(cs):
@@ -478,11 +479,47 @@ class Executor(Engine):
             br = st2.fork([cond])
             if not self.feasible(br.pc):
                 continue
-            if block:
-                out.extend(self.exec_block(block, br))
-            else:
-                out.append((br, None))
-        return out
+            res_ = self.exec_block(block, br) if block else [(br, None)]
+            for st_, o_ in res_:
+                if o_ is None:
+                    falls.append((cond, st_))
+                else:
+                    out.append((st_, o_))
+        if self.cur.d.get('merge_ifs') and len(falls) == 2 and falls[0][0] is c:
+            merged = self.merge_states(st2, c, falls[0][1], falls[1][1])
+            if merged is not None:
+                return out + [(merged, None)]
+        return out + [(st_, None) for _, st_ in falls]
+
+    def merge_states(self, base, c, a, b):
+        """join of the two fall-through states of `if c: .. else: ..` (contract option merge_ifs): variables become ite(c, then, else),
+        the path condition keeps the common prefix and the two branch suffixes under c / not c.  Exact (no information lost)."""
+        n0 = len(base.pc)
+        if a.pc[:n0] != base.pc or b.pc[:n0] != base.pc:
+            return None
+        env = {}
+        for k in set(a.env) | set(b.env):
+            if k not in a.env or k not in b.env:
+                continue          # bound on one side only: unusable afterwards (a later read is an unbound name)
+            va, vb = a.env[k], b.env[k]
+            if va is vb or (va.ty == vb.ty and va.t.eq(vb.t)):
+                env[k] = va
+                continue
+            try:
+                ty = join_types(va.ty, vb.ty)
+                env[k] = V(ty, z3.If(c, coerce(va, ty).t, coerce(vb, ty).t))
+            except OutOfSubset:
+                return None
+        ea, eb = a.pc[n0 + 1:], b.pc[n0 + 1:]          # (position n0 holds c / not c)
+        pc = list(base.pc)
+        if ea:
+            pc.append(z3.Implies(c, z3.And(*ea)))
+        if eb:
+            pc.append(z3.Implies(z3.Not(c), z3.And(*eb)))
+        bag = a.bag
+        if a.bag is not None and b.bag is not None and not a.bag.eq(b.bag):
+            bag = z3.If(c, a.bag, b.bag)
+        return State(env, pc, bag, base.old)
 
     def st_Assert(self, s, st):
         results = []
@@ -577,6 +614,8 @@ class Executor(Engine):
             else:
                 src = self.ev.ev(it, ctx)
             src = self.ev.unwrap_opt(src, ctx)
+            if isinstance(src.ty, TAbs) and src.ty.name in getattr(self, 'opaque_lists', ()):
+                src = self.items_of(src, ctx)       # an opaque list is iterated through its item view
             if isinstance(src.ty, TList):
                 kind = 'list'
             elif src.ty == STR:
@@ -1110,6 +1149,7 @@ def make_engine(modname, repo=None):
     eng.abstract_methods = getattr(m, 'ABSTRACT_METHODS', {})
     eng.ground_forall = getattr(m, 'GROUND_FORALL', [])
     eng.inductive = getattr(m, 'INDUCTIVE_LEMMAS', [])
+    eng.opaque_lists = set(getattr(m, 'OPAQUE_LISTS', ()))
     eng.prefix_folds = getattr(m, 'PREFIX_FOLDS', [])
     for f_ in eng.prefix_folds:
         if not any(f_ + '-reads-only-its-prefix' == lab for lab, _, _ in eng.inductive):
